@@ -50,23 +50,26 @@ def b2n (b : Bool) : Nat := if b then 1 else 0
 a flush of its own tag and an unrelated request arrive; the gate opens only afterwards. -/
 def k7flush (t : Tokens) : String :=
   let chained := t.nat "chained" == 1
+  let twice := t.nat "twice" == 1
   let s0 := arriveAll {} [(1, none)]
   -- the victim starts and enters the backend; nothing else of it may move while gated
   let s1 := ((step s0 (.act .start 0)).bind (step · (.act .enter 0))).getD s0
   let fl : List (Nat × Option Nat) :=
-    [(2, some 1)] ++ (if chained then [(3, some 2)] else []) ++ [(4, some 60000), (5, some 5), (6, none)]
+    [(2, some 1)] ++ (if chained then [(3, some 2)] else []) ++ (if twice then [(7, some 1)] else []) ++
+      [(4, some 60000), (5, some 5), (6, none)]
   let s2 := arriveAll s1 fl
-  -- request ids: 0 victim, 1 f1, (2 f2), then idle, own, other
-  let k := if chained then 3 else 2
+  -- request ids: 0 victim, 1 f1, (f2), (f3: a second flush of the victim), then idle, own, other
+  let i3 := if chained then 3 else 2
+  let k := i3 + (if twice then 1 else 0)
   let gated := quiesce (fun a i => i == 0 && (a == .leave || a == .enter)) 400 s2
   -- (the chained flush, request 2, names a Tflush: it may or may not have to wait – not counted)
-  let early := ([0, 1].map (framesOf gated)).sum
+  let early := (([0, 1] ++ (if twice then [i3] else [])).map (framesOf gated)).sum
   let idle := framesOf gated k
   let own := framesOf gated (k + 1)
   let other := framesOf gated (k + 2)
   -- release: the victim's backend call returns; unrelated request never enters a gated call again
   let fin := quiesce (fun a i => a == .enter && i == 0) 400 gated
-  let rflush := b2n (framesOf fin 1 == 1 && (!chained || framesOf fin 2 == 1))
+  let rflush := b2n (framesOf fin 1 == 1 && (!chained || framesOf fin 2 == 1) && (!twice || framesOf fin i3 == 1))
   let rvictim := b2n (framesOf fin 0 == 1)
   let dup := ((List.range fin.reqs.length).map fun i => framesOf fin i - 1).sum
   s!"early={early} idle={idle} own={own} other={other} rflush={rflush} rvictim={rvictim} dup={dup}"
